@@ -42,9 +42,11 @@ Interpretation decisions (kept no stronger than the statement):
 Canaries are corruptions of HAND-MADE records (independent of the code under test; the uncorrupted
 ones must be accepted on every run).  Everything the library does is recorded as an outcome and judged.
 """
+import copy
 import json
 import shutil
 import tempfile
+import zlib
 
 import numpy as np
 
@@ -104,15 +106,105 @@ def _rast():
     return R
 
 
-def _solved(conn, sol):
-    return mz.SolvedMaze(connection_list=np.array(conn, dtype=bool), solution=np.array(sol))
+def _salt(x):
+    """deterministic small hash (which representation / call form a case gets; never Python's hash())"""
+    return zlib.crc32(str(x).encode())
 
 
-def observe_item(m, pm, opts, src, tab, via="fn"):
+# the SAME solved maze handed over in different representations / built along different routes (audit 2, classes F, G)
+_REPS = ["arr", "list", "tuple", "i8", "i32", "view", "fconn", "from_lattice", "from_targeted", "meta"]
+
+
+def _meta(r, c, s):
+    """a generation_meta as the generators leave it (nested: array, set of tuples)"""
+    return dict(func_name="gen_dfs", grid_shape=np.array([r, c]), start_coord=(int(s[0][0]), int(s[0][1])), n_accessible_cells=int(r * c),
+                max_tree_depth=int(2 * r * c), fully_connected=False, visited_cells={(int(a), int(b)) for a, b in s})
+
+
+def _solved(conn, sol, rep="arr"):
+    """rep: arr = bool C-array + int64 solution array (as before); list / tuple = solution as list of lists / tuple of
+    tuples; i8 / i32 = solution of that dtype (int8 = what a minimal serialization loads); view = negative-stride view;
+    fconn = Fortran-ordered connection_list + solution as a non-contiguous column slice of a wider array;
+    from_lattice / from_targeted = the classmethod routes (generation_meta carried over); meta = constructor with
+    generation_meta, start_pos and end_pos given"""
+    c = np.array(conn, dtype=bool)
+    s = [(int(a), int(b)) for a, b in sol]
+    if rep == "list":
+        return mz.SolvedMaze(connection_list=c, solution=[list(x) for x in s])
+    if rep == "tuple":
+        return mz.SolvedMaze(connection_list=c, solution=tuple(s))
+    if rep in ("i8", "i32"):
+        return mz.SolvedMaze(connection_list=c, solution=np.array(s, dtype=np.int8 if rep == "i8" else np.int32))
+    if rep == "view":
+        return mz.SolvedMaze(connection_list=c, solution=np.array(s[::-1])[::-1])
+    if rep == "fconn":
+        wide = np.full((len(s), 5), -3, dtype=np.int64)
+        wide[:, 1:3] = s
+        return mz.SolvedMaze(connection_list=np.asfortranarray(c), solution=wide[:, 1:3])
+    if rep == "from_lattice":
+        return mz.SolvedMaze.from_lattice_maze(mz.LatticeMaze(connection_list=c, generation_meta=_meta(c.shape[1], c.shape[2], s)), s)
+    if rep == "from_targeted":
+        return mz.SolvedMaze.from_targeted_lattice_maze(mz.TargetedLatticeMaze(connection_list=c, start_pos=np.array(s[0]), end_pos=np.array(s[-1])), solution=s)
+    if rep == "meta":
+        return mz.SolvedMaze(connection_list=c, solution=np.array(s), generation_meta=_meta(c.shape[1], c.shape[2], s), start_pos=s[0], end_pos=s[-1])
+    return mz.SolvedMaze(connection_list=c, solution=np.array(s))
+
+
+def _canon(x):
+    """deep, order-free, type-aware snapshot of a value (nested dicts / lists / sets / arrays) for before / after comparison"""
+    if isinstance(x, dict):
+        return ["dict", sorted(([str(k), _canon(v)] for k, v in x.items()), key=str)]
+    if isinstance(x, (set, frozenset)):
+        return ["set", sorted((_canon(v) for v in x), key=str)]
+    if isinstance(x, (list, tuple)):
+        return [type(x).__name__, [_canon(v) for v in x]]
+    if isinstance(x, np.ndarray):
+        return ["nd", str(x.dtype), list(x.shape), x.tolist()]
+    if isinstance(x, (np.generic,)):
+        return [type(x).__name__, x.item()]
+    if isinstance(x, (bool, int, float, str)) or x is None:
+        return [type(x).__name__, x]
+    return ["obj", type(x).__name__, repr(x)]
+
+
+def _mstate(m):
+    """everything a caller can see of a maze object (arrays with dtype, endpoints, nested generation_meta)"""
+    try:
+        return _canon([m.connection_list, np.asarray(m.solution), np.asarray(m.start_pos), np.asarray(m.end_pos), getattr(m, "generation_meta", None)])
+    except Exception as e:  # noqa: BLE001 - an object that can no longer be read HAS been modified
+        return ["unreadable", type(e).__name__]
+
+
+# how the three options are handed over (audit 2, classes C, G): keywords; positional; only the options that differ
+# from the documented defaults (remove_isolated_cells=True, extend_pixels=True, endpoints_as_open=False), i.e. no
+# argument at all for (True, True, False); numpy.bool_ (Layer M: the annotation says bool)
+_CALLS = ["kw", "pos", "dflt", "kw", "npbool", "pos", "dflt", "kw"]
+
+
+def _call(m, opts, call):
     ric, ext, eao = opts
-    R = _rast()
-    res, t = mz.outcome(lambda: R.process_maze_rasterized_input_target(m, remove_isolated_cells=ric, extend_pixels=ext, endpoints_as_open=eao))
-    rec = dict(kind="item", maze=pm, ric=ric, ext=ext, eao=eao, res=res, inp=[], tgt=[], src=src, via=via)
+    f = _rast().process_maze_rasterized_input_target
+    if call == "pos":
+        return f(m, ric, ext, eao)
+    if call == "dflt":
+        kw = {}
+        if not ric:
+            kw["remove_isolated_cells"] = False
+        if not ext:
+            kw["extend_pixels"] = False
+        if eao:
+            kw["endpoints_as_open"] = True
+        return f(m, **kw)
+    if call == "npbool":
+        return f(maze=m, remove_isolated_cells=np.bool_(ric), extend_pixels=np.bool_(ext), endpoints_as_open=np.bool_(eao))
+    return f(m, remove_isolated_cells=ric, extend_pixels=ext, endpoints_as_open=eao)
+
+
+def observe_item(m, pm, opts, src, tab, via="fn", call="kw", rep="arr"):
+    ric, ext, eao = opts
+    before = _mstate(m)
+    res, t = mz.outcome(lambda: _call(m, opts, call))
+    rec = dict(kind="item", maze=pm, ric=ric, ext=ext, eao=eao, res=res, inp=[], tgt=[], src=src, via=via, call=call, rep=rep, argmod=_mstate(m) != before)
     if res == "ok":
         p = _pair(t, tab)
         if p is None:
@@ -122,14 +214,19 @@ def observe_item(m, pm, opts, src, tab, via="fn"):
     return rec
 
 
-def observe_maze(conn, sol, src, tab, opts=OPTS):
-    """all option combinations on one solved maze; a constructor refusing a valid value is an outcome too"""
-    res, m = mz.outcome(lambda: _solved(conn, sol))
+def observe_maze(conn, sol, src, tab, opts=OPTS, rep=None, calls=None):
+    """all option combinations on one solved maze OBJECT (built once, in the representation `rep`; the maze record is
+    projected once, before the first call: whatever a call does to the object shows in the calls after it);
+    a constructor refusing a valid value is an outcome too"""
+    h = _salt([src, [list(map(int, x)) for x in sol]])
+    rep = rep or _REPS[h % len(_REPS)]
+    calls = calls or [_CALLS[(h // 16 + j) % len(_CALLS)] for j in range(len(opts))]
+    res, m = mz.outcome(lambda: _solved(conn, sol, rep))
     if res != "ok":
         pm = dict(kind="SolvedMaze", R=int(np.shape(conn)[1]), C=int(np.shape(conn)[2]), conn=mz.raw(conn), start=[int(v) for v in sol[0]], end=[int(v) for v in sol[-1]], sol=[[int(a), int(b)] for a, b in sol])
-        return [dict(kind="item", maze=pm, ric=o[0], ext=o[1], eao=o[2], res=res, inp=[], tgt=[], src=src, via="ctor") for o in opts]
+        return [dict(kind="item", maze=pm, ric=o[0], ext=o[1], eao=o[2], res=res, inp=[], tgt=[], src=src, via="ctor", call="kw", rep=rep, argmod=False) for o in opts]
     pm = mz.proj(m)
-    return [observe_item(m, pm, o, src, tab) for o in opts]
+    return [observe_item(m, pm, o, src, tab, call=calls[j], rep=rep) for j, o in enumerate(opts)]
 
 
 # ------------------------------------------------------------------ (C1) exhaustive tiny scope
@@ -236,6 +333,10 @@ def observe_random(args):
     r = c = n
     if k % 5 == 4 and gen in ("rand_perc", "gen_dfs", "gen_percolation"):  # oblong
         c = int(rng.integers(2, maxn + 1))
+    elif k % 5 == 2:  # oblong, sides differing by >= 2, both orientations, every generator (one that refuses gets "!")
+        o = [x for x in range(2, maxn + 1) if abs(x - n) >= 2]
+        o = int(o[int(rng.integers(len(o)))])
+        r, c = (n, o) if (k // 5) % 2 == 0 else (o, n)
     try:
         conn = np.array(_gen_conn(rng, gen, r, c), dtype=bool)
         assert conn.shape == (2, r, c)
@@ -277,6 +378,31 @@ def _hand_mazes():
         z = np.zeros((2, r, c), dtype=bool)
         z[1, 0, : c - 1] = True
         out += [(z, [(0, j) for j in range(c)], f"hand:top{r}x{c}"), (z, [(r - 1, c - 1)], f"hand:top{r}x{c}:iso"), (z, [(0, 1), (0, 0)], f"hand:top{r}x{c}:len2")]
+    # audit 2, classes D x H: oblong (sides differing by >= 2, both orientations), 1xN / Nx1 and 1x1, each with no connection
+    # at all / one corridor along the LAST row or column (the far coordinates) / every connection, and solutions of
+    # one cell (on an isolated cell, on the corridor), two cells (both directions) and the whole corridor
+    for r, c in ((2, 5), (5, 2), (3, 7), (7, 3), (1, 6), (6, 1), (1, 1)):
+        t = f"{r}x{c}"
+        z = np.zeros((2, r, c), dtype=bool)
+        out += [(z, [(r - 1, c - 1)], f"hand:ob-empty{t}:far")]
+        if r * c > 1:
+            out += [(z, [(0, 0)], f"hand:ob-empty{t}:corner")]
+        if c > 1:
+            row = z.copy()
+            row[1, r - 1, : c - 1] = True
+            out += [(row, [(r - 1, j) for j in range(c - 1, -1, -1)], f"hand:ob-row{t}:rev"), (row, [(r - 1, c - 1), (r - 1, c - 2)], f"hand:ob-row{t}:len2"),
+                    (row, [(r - 1, c - 2), (r - 1, c - 1)], f"hand:ob-row{t}:len2rev"), (row, [(r - 1, c - 1)], f"hand:ob-row{t}:len1")]
+            if r > 1:
+                out += [(row, [(0, c - 1)], f"hand:ob-row{t}:iso")]
+        if r > 1:
+            col = z.copy()
+            col[0, : r - 1, c - 1] = True
+            out += [(col, [(i, c - 1) for i in range(r)], f"hand:ob-col{t}"), (col, [(r - 1, c - 1), (r - 2, c - 1)], f"hand:ob-col{t}:len2"), (col, [(r - 2, c - 1)], f"hand:ob-col{t}:len1")]
+        if r * c > 1:
+            full = np.ones((2, r, c), dtype=bool)
+            full[0, -1, :] = False
+            full[1, :, -1] = False
+            out += [(full, [(i, 0) for i in range(r)] + [(r - 1, j) for j in range(1, c)], f"hand:ob-full{t}"), (full, [(r - 1, 0)], f"hand:ob-full{t}:len1")]
     return out
 
 
@@ -286,7 +412,12 @@ def observe_hand(i):
 
 
 # ------------------------------------------------------------------ (C3) datasets and batches
+_BREPS = ["tuple", "nd64", "npints", "range", "gen", "nd32"]
+
+
 def _idx_lists(n, rng):
+    if n < 1:  # a dataset whose filters left nothing: only the empty selection exists
+        return [[]]
     ls = [list(range(n)), list(range(n - 1, -1, -1)), [n - 1], [0, 0], []]
     if n >= 2:
         ls += [[1, 0, 1], [n - 1, 0]]
@@ -297,7 +428,57 @@ def _idx_lists(n, rng):
         if tuple(x) not in seen:
             seen.add(tuple(x))
             out.append(x)
-    return out
+    # audit 2, class G: index lists in other representations (tuple, int64 / int32 ndarray, list of numpy ints, range,
+    # one-shot generator); class C: the empty selection as an empty tuple / empty ndarray
+    off = int(rng.integers(0, len(_BREPS)))
+    extra = []
+    for j in range(3):
+        rp = _BREPS[(off + j) % len(_BREPS)]
+        ix = [x for x in out if x][int(rng.integers(len([x for x in out if x])))]
+        if rp == "range":
+            ix = list(range(n)) if (off + j) % 2 == 0 else list(range(n - 1, -1, -1))
+        extra.append(dict(rep=rp, idxs=list(ix)))
+    extra.append(dict(rep=["tuple", "nd64"][off % 2], idxs=[]))
+    return out + extra
+
+
+def _batch_arg(spec):
+    """one entry of an index-list plan -> (the caller's OWN object handed to get_batch, the indices as plain ints, rep)"""
+    if isinstance(spec, dict):
+        rp, ix = spec["rep"], [int(v) for v in spec["idxs"]]
+    else:
+        rp, ix = "list", [int(v) for v in spec]
+    if rp == "tuple":
+        arg = tuple(ix)
+    elif rp in ("nd64", "nd32"):
+        arg = np.array(ix, dtype=np.int64 if rp == "nd64" else np.int32)
+    elif rp == "npints":
+        arg = [np.int64(v) if i % 2 == 0 else np.int32(v) for i, v in enumerate(ix)]
+    elif rp == "range":
+        arg = range(ix[0], ix[-1] + 1) if ix[0] <= ix[-1] else range(ix[0], ix[-1] - 1, -1)
+        if list(arg) != ix:
+            raise lib.MachineryError(f"index plan {spec} is not a range")
+    elif rp == "gen":
+        arg = (v for v in ix)
+    else:
+        arg = list(ix)
+    return arg, ix, rp
+
+
+def _arg_changed(arg, ix):
+    if isinstance(arg, list):
+        return len(arg) != len(ix) or any(int(a) != b for a, b in zip(arg, ix))
+    if isinstance(arg, np.ndarray):
+        return arg.shape != (len(ix),) or arg.tolist() != ix
+    return False
+
+
+def _arg_overwrite(arg):
+    """the caller reuses its index buffer right after the call (before it looks at the batch)"""
+    if isinstance(arg, list):
+        arg[:] = [0] * (len(arg) + 1)
+    elif isinstance(arg, np.ndarray):
+        arg[...] = 0
 
 
 def _scribble(t):
@@ -311,13 +492,17 @@ def _scribble(t):
         pass
 
 
-def _observe_ds(build, opts, idx_lists, src, tab, recipe):
+def _observe_ds(build, opts, idx_lists, src, tab, recipe, flags=None):
     """build() -> RasterizedMazeDataset.  HISTORY on the one dataset object, two records:
     pass 0: every item, then the listed batches;  then every tensor handed out so far is overwritten in place;
-    pass 1: the batches again (list order reversed), then every item read, overwritten and read again.
-    Each pass is judged like a fresh dataset (item images against the spec, batches against the items)."""
+    pass 1: the batches again (list order reversed), then every item read, overwritten and read again (odd indices
+    as numpy.int64 instead of int).
+    Each pass is judged like a fresh dataset (item images against the spec, batches against the items).
+    Index lists are the caller's own objects: compared with a snapshot after the call (argmod) and overwritten before
+    the batch is read.  flags["argmod"] (set by build) = the construction changed one of ITS arguments; the mazes of the
+    dataset are projected once after construction and their state is compared again at the very end (argmod of pass 1)."""
     ric, ext, eao = opts
-    new = lambda k: dict(kind="ds", mazes=[], ric=ric, ext=ext, eao=eao, res="ok", items=[], batches=[], src=f"{src}:pass{k}", recipe=json.dumps(recipe))  # noqa: E731
+    new = lambda k: dict(kind="ds", mazes=[], ric=ric, ext=ext, eao=eao, res="ok", items=[], batches=[], src=f"{src}:pass{k}", recipe=json.dumps(recipe), argmod=False)  # noqa: E731
     rec = new(0)
     res, ds = mz.outcome(build)
     if res == "ok":
@@ -326,10 +511,13 @@ def _observe_ds(build, opts, idx_lists, src, tab, recipe):
         rec["res"] = res
         rec["mazes"] = recipe.get("mazes", [])
         return [rec]
+    rec["argmod"] = bool(flags and flags.get("argmod"))
+    states = [_mstate(m) for m in ds.mazes]
     handed = []
 
-    def item(i):
-        r1, t = mz.outcome(lambda: ds[i])
+    def item(i, as_np=False):
+        idx = np.int64(i) if as_np else i
+        r1, t = mz.outcome(lambda: ds[idx])
         it = dict(res=r1, inp=[], tgt=[])
         if r1 == "ok":
             handed.append(t)
@@ -340,10 +528,14 @@ def _observe_ds(build, opts, idx_lists, src, tab, recipe):
                 it["inp"], it["tgt"] = p
         return it
 
-    def batch(idxs):
-        arg = None if idxs == "all" else idxs
+    def batch(spec):
+        if spec == "all":
+            arg, ix, rp = None, list(range(len(pms))), "none"
+        else:
+            arg, ix, rp = _batch_arg(spec)
         r1, b = mz.outcome(lambda: ds.get_batch(arg))
-        bt = dict(idxs=list(range(len(pms))) if idxs == "all" else idxs, res=r1, out=[], none=idxs == "all")
+        bt = dict(idxs=ix, res=r1, out=[], none=spec == "all", rep=rp, argmod=_arg_changed(arg, ix))
+        _arg_overwrite(arg)
         if r1 == "ok":
             handed.append(b)
             try:
@@ -367,23 +559,75 @@ def _observe_ds(build, opts, idx_lists, src, tab, recipe):
     for i in range(len(pms) - 1, -1, -1):
         item(i)
         _scribble(handed[-1]) if handed else None
-    rec2["items"] = [item(i) for i in range(len(pms))]
+    rec2["items"] = [item(i, as_np=i % 2 == 1) for i in range(len(pms))]
+    r3, after = mz.outcome(lambda: [_mstate(m) for m in ds.mazes])
+    rec2["argmod"] = r3 != "ok" or after != states
     return [rec, rec2]
 
 
-def _base_dataset(pms):
+# ---- construction routes.  recipe["how"]:
+#   base    from_base_MazeDataset(plain in-memory MazeDataset, added_params)      added: full | none | partial
+#   ctor    RasterizedMazeDataset(cfg=RasterizedMazeDatasetConfig(..., options), mazes=[...]) directly, no factory
+#   config  from_config_augmented(RasterizedMazeDatasetConfig)                     (the caller's cfg is changed afterwards)
+#   cfgbase from_base_MazeDataset(generated MazeDataset after filter_by... / collect_generation_meta, added_params)
+# knobs (audit 2, class F): n_mazes / grid_n of the config that DISAGREE with the mazes (n_mazes is compare=False state,
+# len(dataset) is len(mazes)); dup = the same maze object and an equal copy once more; pre = "raster": the base is
+# itself a RasterizedMazeDataset carrying the OPPOSITE options (the options asked for now must win).
+_DEFAULT_OPTS = (True, True, False)
+_OPT_NAMES = ("remove_isolated_cells", "extend_pixels", "endpoints_as_open")
+
+
+def _added(opts, mode):
+    if mode == "none":
+        return None
+    if mode == "partial":  # only what differs from the documented defaults; {} for the defaults themselves
+        return {k: v for k, v, d in zip(_OPT_NAMES, opts, _DEFAULT_OPTS) if v != d}
+    return dict(zip(_OPT_NAMES, opts))
+
+
+def _ms(pms, dup=False):
+    ms = [_solved(pm["conn"], pm["sol"], _REPS[(i + len(pms)) % len(_REPS)]) for i, pm in enumerate(pms)]
+    if dup:
+        ms = ms + [ms[0], _solved(pms[-1]["conn"], pms[-1]["sol"], "arr"), ms[0]]
+    return ms
+
+
+def _base_dataset(pms, n_mazes=None, grid_n=None, dup=False):
     from maze_dataset import MazeDataset, MazeDatasetConfig
 
-    ms = [_solved(pm["conn"], pm["sol"]) for pm in pms]
-    return MazeDataset(cfg=MazeDatasetConfig(name="c17_base", grid_n=int(max(pms[0]["R"], pms[0]["C"])), n_mazes=len(ms)), mazes=ms)
+    ms = _ms(pms, dup)
+    return MazeDataset(cfg=MazeDatasetConfig(name="c17_base", grid_n=int(max(pms[0]["R"], pms[0]["C"])) if grid_n is None else int(grid_n), n_mazes=len(ms) if n_mazes is None else int(n_mazes)), mazes=ms)
 
 
-def _build_from_base(pms, opts):
+def _from_base_checked(base, ap, flags):
+    """from_base_MazeDataset on the caller's own base dataset and added_params dict: both compared with a deep snapshot
+    after the call; then the caller reuses its dict (every option flipped) before anything is read from the dataset"""
     R = _rast()
-    base = _base_dataset(pms)
-    if opts is None:
-        return R.RasterizedMazeDataset.from_base_MazeDataset(base)
-    return R.RasterizedMazeDataset.from_base_MazeDataset(base, added_params=dict(remove_isolated_cells=opts[0], extend_pixels=opts[1], endpoints_as_open=opts[2]))
+    snap = lambda: _canon([base.cfg.serialize(), [id(m) for m in base.mazes], len(base), ap])  # noqa: E731
+    before = snap()
+    ds = R.RasterizedMazeDataset.from_base_MazeDataset(base) if ap is None else R.RasterizedMazeDataset.from_base_MazeDataset(base, added_params=ap)
+    if flags is not None:
+        flags["argmod"] = flags.get("argmod", False) or snap() != before
+    if ap:
+        for k in list(ap):
+            ap[k] = not ap[k]
+    return ds
+
+
+def _build_from_base(pms, opts, flags=None, *, added="full", n_mazes=None, grid_n=None, dup=False, pre=None):
+    R = _rast()
+    base = _base_dataset(pms, n_mazes, grid_n, dup)
+    if pre == "raster":
+        base = R.RasterizedMazeDataset.from_base_MazeDataset(base, added_params=dict(zip(_OPT_NAMES, [not o for o in opts])))
+    return _from_base_checked(base, _added(opts, added), flags)
+
+
+def _build_ctor(pms, opts, *, n_mazes=None, grid_n=None, dup=False):
+    R = _rast()
+    ms = _ms(pms, dup)
+    cfg = R.RasterizedMazeDatasetConfig(name="c17_ctor", grid_n=int(max(pms[0]["R"], pms[0]["C"])) if grid_n is None else int(grid_n),
+                                        n_mazes=len(ms) if n_mazes is None else int(n_mazes), **dict(zip(_OPT_NAMES, opts)))
+    return R.RasterizedMazeDataset(cfg=cfg, mazes=ms)
 
 
 def _cfg_kwargs(recipe):
@@ -395,10 +639,49 @@ def _cfg_kwargs(recipe):
 _FROM_CFG = dict(load_local=False, save_local=False, do_download=False, do_generate=True, gen_parallel=False, verbose=False)
 
 
-def _build_from_config(recipe, opts, tmp):
+def _build_from_config(recipe, opts, tmp, flags=None):
     R = _rast()
     cfg = R.RasterizedMazeDatasetConfig(**_cfg_kwargs(recipe), remove_isolated_cells=opts[0], extend_pixels=opts[1], endpoints_as_open=opts[2])
-    return R.RasterizedMazeDataset.from_config_augmented(cfg, local_base_path=tmp, **_FROM_CFG)
+    before = _canon(cfg.serialize())
+    ds = R.RasterizedMazeDataset.from_config_augmented(cfg, local_base_path=tmp, **_FROM_CFG)
+    if flags is not None:
+        flags["argmod"] = _canon(cfg.serialize()) != before
+    if ds.cfg is not cfg:  # the caller goes on to its next variant with the same config object (as make_numpy_collection does with grid_n)
+        cfg.remove_isolated_cells, cfg.extend_pixels, cfg.endpoints_as_open = (not o for o in opts)
+    return ds
+
+
+def _build_cfgbase(recipe, opts, tmp, flags=None):
+    """class F: the base went through filters (one / the same one twice in a row) and / or had its metadata collected"""
+    from maze_dataset import MazeDataset, MazeDatasetConfig
+
+    base = MazeDataset.from_config(MazeDatasetConfig(**_cfg_kwargs(recipe)), local_base_path=tmp, **_FROM_CFG)
+    for step in recipe["post"]:
+        if step == "filter":
+            base = base.filter_by.path_length(min_length=recipe.get("min_length", 1))
+        elif step == "collect":
+            base = base.filter_by.collect_generation_meta()
+        else:
+            raise ValueError(step)
+    return _from_base_checked(base, _added(opts, "full"), flags)
+
+
+def _build(recipe, opts, tmp, flags=None):
+    how = recipe.get("how")
+    kn = {k: recipe[k] for k in ("n_mazes", "grid_n", "dup") if k in recipe and how in ("base", "ctor")}
+    if how == "base":
+        return _build_from_base(recipe["mazes"], opts, flags, added="none" if recipe.get("default") else recipe.get("added", "full"), pre=recipe.get("pre"), **kn)
+    if how == "ctor":
+        return _build_ctor(recipe["mazes"], opts, **kn)
+    if how == "cfgbase":
+        return _build_cfgbase(recipe, opts, tmp, flags)
+    return _build_from_config(recipe, opts, tmp, flags)
+
+
+def _observe_recipe(recipe, opts, lists, src, tab, tmp=None):
+    """opts = the options ASKED for (for added_params=None: the documented defaults)"""
+    flags = {}
+    return _observe_ds(lambda: _silenced(lambda: _build(recipe, opts, tmp, flags)), opts, lists, src, tab, recipe, flags)
 
 
 def _plain_generates(recipe, tmp):
@@ -442,15 +725,87 @@ def observe_dataset(args):
         use_default = k % 24 == 3  # added_params=None: the documented defaults (ric, ext) = (True, True), eao False
         asked = (True, True, False) if use_default else opts
         recipe = dict(how="base", mazes=pms, default=use_default)
-        return _observe_ds(lambda: _silenced(lambda: _build_from_base(pms, None if use_default else opts)), asked, lists, f"ds:base:{seed}:{k}:{gen}:{n}", tab, recipe)
+        return _observe_recipe(recipe, asked, lists, f"ds:base:{seed}:{k}:{gen}:{n}", tab)
     gen = GENS[(k // 3) % 5]
     kw = {"p": float(rng.choice([0.3, 0.5]))} if "percolation" in gen else {}
     recipe = dict(how="config", gen=gen, kwargs=kw, grid_n=int(rng.integers(2, min(maxn, 6) + 1)), n_mazes=int(rng.integers(1, 5)), seed=int(rng.integers(0, 2**31 - 1)))
+    if (k // 3) % 4 == 0:
+        recipe["seed"] = 0  # class C: the falsy seed
     tmp = tempfile.mkdtemp(prefix="c17_", dir=str(lib.WORK))
     try:
         if not _silenced(lambda: _plain_generates(recipe, tmp)):
             return []
-        return _observe_ds(lambda: _silenced(lambda: _build_from_config(recipe, opts, tmp)), opts, lists, f"ds:config:{seed}:{k}:{gen}", tab, recipe)
+        return _observe_recipe(recipe, opts, lists, f"ds:config:{seed}:{k}:{gen}", tab, tmp)
+    finally:
+        shutil.rmtree(tmp, ignore_errors=True)
+
+
+# ---- audit 2: shortest cases x every option combination x every construction route (H), stale / redundant derived
+# state (F), falsy config values (C), oblong and degenerate shapes inside datasets (D)
+_ROUTES = ["base", "ctor", "rebase", "partial"]
+
+
+def _hand_pms(shape):
+    out = []
+    for conn, sol, _src in _hand_mazes():
+        if conn.shape[1:] == tuple(shape):
+            out.append(dict(kind="SolvedMaze", R=int(shape[0]), C=int(shape[1]), conn=mz.raw(conn), start=[int(v) for v in sol[0]], end=[int(v) for v in sol[-1]], sol=[[int(a), int(b)] for a, b in sol]))
+    return out
+
+
+def ds2_jobs(thorough):
+    """deterministic plan.  short: the hand-built mazes of one shape (no connection / one passage / corridor / every
+    connection; one-cell solutions on isolated and on connected cells, two-cell solutions both ways) as ONE dataset,
+    under every option combination along every route (quick: the routes rotate over 4 shapes so that each route meets all
+    8 combinations; thorough: full product over 10 shapes).  stale: config fields that disagree with the mazes.
+    cfgbase: filtered / collected bases.  """
+    jobs = []
+    if thorough:
+        for sh in [(2, 2), (2, 5), (5, 2), (1, 6), (6, 1), (1, 1), (3, 3), (3, 7), (7, 3), (5, 5)]:
+            jobs += [("short", sh, oi, rt) for oi in range(8) for rt in _ROUTES]
+            jobs += [("short", sh, 6, "none")]
+    else:
+        for si, sh in enumerate([(2, 2), (2, 5), (5, 2), (1, 6)]):
+            jobs += [("short", sh, oi, _ROUTES[(oi + si) % 4]) for oi in range(8)]
+        jobs += [("short", (6, 1), 6, "none"), ("short", (1, 1), 6, "none"), ("short", (1, 1), 1, "partial"), ("short", (6, 1), 3, "ctor")]
+    stale_shapes = [(2, 5), (5, 2), (1, 6), (6, 1), (1, 1), (3, 7), (2, 2), (7, 3)]
+    for j in range(24 if thorough else 8):
+        # n_mazes: 0 (falsy), more than there are, fewer than there are;  grid_n: 1, the shorter side, far too large
+        jobs.append(("stale", stale_shapes[j % 8], (3 * j + 1) % 8, ["base", "ctor", "rebase"][j % 3], ["zero", "more", "one"][(j // 2) % 3], ["one", "min", "huge"][(j // 3) % 3], j % 2 == 0))
+    posts = [["filter"], ["collect"], ["filter", "filter"], ["filter", "collect"], ["collect", "filter"], ["collect", "collect"]]
+    for j in range(30 if thorough else 6):
+        jobs.append(("cfgbase", GENS[j % 5], posts[j % 6], (5 * j + 2) % 8, 0 if j % 2 == 0 else 1000 + j, 1 + j % 2))
+    return jobs
+
+
+def observe_dataset2(args):
+    seed, j, job = args
+    rng = np.random.default_rng([seed, 717, j])
+    tab = _palette()
+    lists = lambda n: _idx_lists(n, rng) + ["all"]  # noqa: E731
+    fam = job[0]
+    if fam in ("short", "stale"):
+        sh, oi, route = job[1], job[2], job[3]
+        opts = OPTS[oi]
+        pms = _hand_pms(sh)
+        recipe = dict(how="ctor" if route == "ctor" else "base", mazes=pms)
+        if route == "rebase":
+            recipe["pre"] = "raster"
+        elif route in ("partial", "none"):
+            recipe["added"] = route
+        asked = _DEFAULT_OPTS if route == "none" else opts
+        if fam == "stale":
+            n = len(pms) + (3 if job[6] else 0)
+            recipe.update(n_mazes=dict(zero=0, more=n + 3, one=1)[job[4]], grid_n=dict(one=1, min=min(sh), huge=64)[job[5]], dup=bool(job[6]))
+        return _observe_recipe(recipe, asked, lists, f"ds:{fam}:{seed}:{j}:{sh[0]}x{sh[1]}:{route}", tab)
+    _fam, gen, post, oi, cseed, minlen = job
+    kw = {"p": 0.4} if "percolation" in gen else {}
+    recipe = dict(how="cfgbase", gen=gen, kwargs=kw, grid_n=int(rng.integers(3, 6)), n_mazes=int(rng.integers(2, 5)), seed=int(cseed), post=list(post), min_length=int(minlen))
+    tmp = tempfile.mkdtemp(prefix="c17_", dir=str(lib.WORK))
+    try:
+        if not _silenced(lambda: _plain_generates(recipe, tmp)):
+            return []
+        return _observe_recipe(recipe, OPTS[oi], lists, f"ds:cfgbase:{seed}:{j}:{gen}:{'+'.join(post)}", tab, tmp)
     finally:
         shutil.rmtree(tmp, ignore_errors=True)
 
@@ -461,19 +816,21 @@ def _history(mazes, steps, src, tab):
     process on those objects.  use: 0 nothing; 1 overwrite the returned tensor in place; 2 render the maze
     (as_pixels) and overwrite that picture; 3 use the maze otherwise (hash, ascii, ==, lattice copy).
     Every step is one ordinary item record: judged against the spec = compared with a fresh object's result."""
-    R = _rast()
     recipe = json.dumps(dict(mazes=[[mz.raw(c), [[int(a), int(b)] for a, b in p]] for c, p in mazes], steps=steps))
     objs = []
-    for conn, sol in mazes:
-        res, m = mz.outcome(lambda: _solved(conn, sol))
+    for i, (conn, sol) in enumerate(mazes):
+        rp = _REPS[(i + len(steps)) % len(_REPS)]  # representation fixed by the recipe (replay builds the same objects)
+        res, m = mz.outcome(lambda: _solved(conn, sol, rp))
         if res != "ok":
             return []  # constructors are judged in observe_maze
-        objs.append((m, mz.proj(m)))
+        objs.append((m, mz.proj(m), rp))
     out = []
     for k, (mi, ric, ext, eao, use) in enumerate(steps):
-        m, pm = objs[mi]
-        res, t = mz.outcome(lambda: R.process_maze_rasterized_input_target(m, remove_isolated_cells=ric, extend_pixels=ext, endpoints_as_open=eao))
-        rec = dict(kind="item", maze=pm, ric=ric, ext=ext, eao=eao, res=res, inp=[], tgt=[], src=f"{src}:step{k}", via="hist", hist=recipe)
+        m, pm, rp = objs[mi]
+        call = _CALLS[(k + len(mazes)) % len(_CALLS)]
+        before = _mstate(m)
+        res, t = mz.outcome(lambda: _call(m, (ric, ext, eao), call))
+        rec = dict(kind="item", maze=pm, ric=ric, ext=ext, eao=eao, res=res, inp=[], tgt=[], src=f"{src}:step{k}", via="hist", hist=recipe, call=call, rep=rp, argmod=_mstate(m) != before)
         if res == "ok":
             p = _pair(t, tab)
             if p is None:
@@ -554,12 +911,12 @@ def observe_ds_sizes(args):
                     conn, p = _one_maze(rng, ["rand_perc", "gen_dfs"][j % 2], n, n)
                     pms.append(dict(kind="SolvedMaze", R=n, C=n, conn=mz.raw(conn), start=list(p[0]), end=list(p[-1]), sol=[list(x) for x in p]))
                 recipe = dict(how="base", mazes=pms, default=False, prelude=list(prelude))
-                out += _observe_ds(lambda: _silenced(lambda: _build_from_base(pms, opts)), opts, lists, f"ds:sizes:base:{seed}:{k}:{j}:{n}", tab, recipe)
+                out += _observe_recipe(recipe, opts, lists, f"ds:sizes:base:{seed}:{k}:{j}:{n}", tab)
             else:
                 recipe = dict(how="config", gen="gen_dfs", kwargs={}, grid_n=n, n_mazes=3, seed=int(rng.integers(0, 2**31 - 1)), prelude=list(prelude))
                 if not _silenced(lambda: _plain_generates(recipe, tmp)):
                     continue
-                out += _observe_ds(lambda: _silenced(lambda: _build_from_config(recipe, opts, tmp)), opts, lists, f"ds:sizes:config:{seed}:{k}:{j}:{n}", tab, recipe)
+                out += _observe_recipe(recipe, opts, lists, f"ds:sizes:config:{seed}:{k}:{j}:{n}", tab, tmp)
             prelude.append([{x: y for x, y in recipe.items() if x != "prelude"}, list(opts)])
     finally:
         shutil.rmtree(tmp, ignore_errors=True)
@@ -592,12 +949,15 @@ def observe_big(args):
     out = []
     src = f"big:{r}x{c}:{seed}"
     p = _rand_shortest(conn, s, t, rng)
-    out += observe_maze(conn, p, src, tab, opts=[(True, True, False), (False, True, True), (True, False, True)])
-    out += observe_maze(conn, [(r - 1, c - 1)], src + ":iso", tab, opts=[(True, True, False), (False, True, False), (False, False, True)])
+    # representations: int8 solutions (as loaded from a minimal serialization) where every coordinate fits - on grid 65 the
+    # pixel coordinate 2 * 64 + 1 does not fit int8 any more; int32 / Fortran order / classmethod routes elsewhere
+    small = max(r, c) <= 127
+    out += observe_maze(conn, p, src, tab, opts=[(True, True, False), (False, True, True), (True, False, True)], rep="i8" if small else "i32")
+    out += observe_maze(conn, [(r - 1, c - 1)], src + ":iso", tab, opts=[(True, True, False), (False, True, False), (False, False, True)], rep="i8" if small else "fconn")
     a = (r - 1, c - 2)
     nb = mz.nbrs(conn, a)
     if nb:
-        out += observe_maze(conn, [a, nb[0]], src + ":len2", tab, opts=[(True, True, True), (False, True, False)])
+        out += observe_maze(conn, [a, nb[0]], src + ":len2", tab, opts=[(True, True, True), (False, True, False)], rep="from_lattice" if small else "view")
     return out
 
 
@@ -614,25 +974,48 @@ def observe_bigds(args):
     lists = lambda _n: [[0, 127, 128, 129, 255, 256, n - 1], [n - 1, 256, 255, 128, 127, 0], [128], [256, 256, 0], list(range(n - 1, -1, -1)), [int(x) for x in rng.integers(0, n, size=40)], "all"]  # noqa: E731
     opts = (True, False, True)
     recipe = dict(how="base", mazes=pms, default=False, biglists=True)
-    return _observe_ds(lambda: _silenced(lambda: _build_from_base(pms, opts)), opts, lists, f"ds:big:{seed}:{n}", tab, recipe)
+    return _observe_recipe(recipe, opts, lists, f"ds:big:{seed}:{n}", tab)
 
 
 # ------------------------------------------------------------------ (C4) post-processing helpers on arbitrary images
-def _helper(kind, img, tab, src):
+_HREPS = ["u8", "i64", "fortran", "view", "i32", "ro"]
+
+
+def _helper(kind, img, tab, src, rep="u8"):
+    """the image is the caller's own array in the representation `rep` (audit 2, classes E, G): uint8 C-order (what
+    as_pixels returns), int64 / int32, Fortran-ordered, a non-contiguous view into a larger picture whose surroundings
+    are OPEN pixels (nothing outside the image counts), read-only.  After the call the array is compared with a snapshot
+    (argmod) and the result is tested for shared memory (alias); the result is read BEFORE anything is touched, so both
+    are reported on their own (Layer M) and the returned image is judged for what it is."""
     R = _rast()
     fn = getattr(R, "_remove_isolated_cells" if kind == "ric" else "_extend_pixels", None)
-    rec = dict(kind=kind, img=img, res="na", out=[], src=src)
+    rec = dict(kind=kind, img=img, res="na", out=[], src=src, rep=rep, argmod=False, alias=False)
     if fn is None:
         return rec
     rgb = np.array(tab, dtype=np.uint8)[np.array(img, dtype=int)]
+    if rep == "i64":
+        rgb = rgb.astype(np.int64)
+    elif rep == "i32":
+        rgb = rgb.astype(np.int32)
+    elif rep == "fortran":
+        rgb = np.asfortranarray(rgb)
+    elif rep == "view":
+        wide = np.full((rgb.shape[0] + 3, rgb.shape[1] + 4, 3), np.array(tab[1], dtype=np.uint8), dtype=np.uint8)
+        wide[1:1 + rgb.shape[0], 2:2 + rgb.shape[1]] = rgb
+        rgb = wide[1:1 + rgb.shape[0], 2:2 + rgb.shape[1]]
+    elif rep == "ro":
+        rgb.flags.writeable = False
+    snap = rgb.copy()
     res, o = mz.outcome(lambda: fn(rgb))
     rec["res"] = res
+    rec["argmod"] = not (rgb.shape == snap.shape and rgb.dtype == snap.dtype and np.array_equal(rgb, snap))
     if res == "ok":
         try:
             a = _arr(o)
             if a.ndim != 3:
                 raise ValueError
             rec["out"] = _codes(a, tab).tolist()
+            rec["alias"] = bool(isinstance(o, np.ndarray) and np.shares_memory(o, rgb))
         except Exception:  # noqa: BLE001
             rec["res"] = "raise:NotAnImage"
     return rec
@@ -645,17 +1028,17 @@ def observe_helpers(args):
     if mode == "ex":  # every wall/open image of shape a x b
         for n in range(2 ** (a * b)):
             img = [[(n >> (i * b + j)) & 1 for j in range(b)] for i in range(a)]
-            out.append(_helper("ric", img, tab, f"img:ex:{a}x{b}:{n}"))
+            out.append(_helper("ric", img, tab, f"img:ex:{a}x{b}:{n}", _HREPS[(n + a) % len(_HREPS)]))
             if n % 4 == 0 or a * b <= 4:
-                out.append(_helper("ext", img, tab, f"img:ex:{a}x{b}:{n}"))
+                out.append(_helper("ext", img, tab, f"img:ex:{a}x{b}:{n}", _HREPS[(n // 4 + b) % len(_HREPS)]))
     else:  # random coloured images (all five codes), sparse and dense
         for k in range(a, b):
             rng = np.random.default_rng([seed, 217, k])
             h, w = int(rng.integers(1, 10)), int(rng.integers(1, 10))
             dens = float(rng.choice([0.15, 0.35, 0.6]))
             img = np.where(rng.random((h, w)) < dens, rng.integers(1, 5, size=(h, w)), 0).tolist()
-            out.append(_helper("ric", img, tab, f"img:rnd:{seed}:{k}"))
-            out.append(_helper("ext", img, tab, f"img:rnd:{seed}:{k}"))
+            out.append(_helper("ric", img, tab, f"img:rnd:{seed}:{k}", _HREPS[k % len(_HREPS)]))
+            out.append(_helper("ext", img, tab, f"img:rnd:{seed}:{k}", _HREPS[(k + 3) % len(_HREPS)]))
     return out
 
 
@@ -697,13 +1080,17 @@ def _cp(x):
 
 def _item(pm, opts, inp, tgt):
     ric, ext, eao = opts
-    return dict(kind="item", maze=_cp(pm), ric=ric, ext=ext, eao=eao, res="ok", inp=_ext(_img(inp)) if ext else _img(inp), tgt=_ext(_img(tgt)) if ext else _img(tgt), src="hand-made", via="hand")
+    return dict(kind="item", maze=_cp(pm), ric=ric, ext=ext, eao=eao, res="ok", inp=_ext(_img(inp)) if ext else _img(inp), tgt=_ext(_img(tgt)) if ext else _img(tgt), src="hand-made", via="hand",
+                call="kw", rep="arr", argmod=False)
 
 
 def hand_made():
     B = dict(kind="SolvedMaze", R=2, C=3, conn=_CONN_B, start=[0, 0], end=[1, 1], sol=_SOL_B)
     B2 = dict(kind="SolvedMaze", R=2, C=3, conn=_CONN_B, start=[1, 1], end=[0, 0], sol=_SOL_B[::-1])
     C = dict(kind="SolvedMaze", R=2, C=2, conn=_CONN_C, start=[1, 0], end=[1, 0], sol=[[1, 0]])
+    D = dict(kind="SolvedMaze", R=1, C=1, conn=[[[0]], [[0]]], start=[0, 0], end=[0, 0], sol=[[0, 0]])  # the smallest maze there is
+    # 3x1 (a column): (0,0)-(1,0) connected, (2,0) isolated; two-cell solution going UP
+    T = dict(kind="SolvedMaze", R=3, C=1, conn=[[[1], [0], [0]], [[0], [0], [0]]], start=[1, 0], end=[0, 0], sol=[[1, 0], [0, 0]])
     H = dict(
         b000=_item(B, (False, False, False), _B_IN, _B_TG),
         b001=_item(B, (False, False, True), _B_IN, _B_TG_OPEN),
@@ -713,18 +1100,28 @@ def hand_made():
         c000=_item(C, (False, False, False), _C_IN, _C_TG),
         c100=_item(C, (True, False, False), _C_WALL, _C_WALL),
         c110=_item(C, (True, True, False), _C_WALL, _C_WALL),
+        d000=_item(D, (False, False, False), ["###", "#E#", "###"], ["###", "#E#", "###"]),
+        d011=_item(D, (False, True, True), ["###", "#E#", "###"], ["###", "# #", "###"]),
+        d110=_item(D, (True, True, False), ["###"] * 3, ["###"] * 3),
+        t000=_item(T, (False, False, False), ["###", "#E#", "# #", "#S#", "###", "# #", "###"], ["###", "#E#", "# #", "#S#", "###", "###", "###"]),
+        t111=_item(T, (True, True, True), ["###", "#E#", "# #", "#S#", "###", "###", "###"], ["###", "# #", "# #", "# #", "###", "###", "###"]),
     )
     i1 = dict(res="ok", inp=_img(_B_IN), tgt=_img(_B_TG))
     i2 = dict(res="ok", inp=_img(_B2_IN), tgt=_img(_B2_TG))
-    bt = lambda idxs: dict(idxs=idxs, res="ok", out=[[[i1, i2][k]["inp"] for k in idxs], [[i1, i2][k]["tgt"] for k in idxs]], none=False)  # noqa: E731
+    bt = lambda idxs, rp="list": dict(idxs=idxs, res="ok", out=[[[i1, i2][k]["inp"] for k in idxs], [[i1, i2][k]["tgt"] for k in idxs]], none=False, rep=rp, argmod=False)  # noqa: E731
     H["ds"] = dict(kind="ds", mazes=[B, B2], ric=False, ext=False, eao=False, res="ok", items=[i1, i2],
-                   batches=[bt([0, 1]), bt([1, 0]), bt([1, 1, 0]), bt([1]), dict(idxs=[], res="raise:ValueError", out=[], none=False), dict(idxs=[], res="ok", out=[[], []], none=False)],
-                   src="hand-made", recipe="{}")
+                   batches=[bt([0, 1]), bt([1, 0]), bt([1, 1, 0]), bt([1]), dict(idxs=[], res="raise:ValueError", out=[], none=False, rep="list", argmod=False),
+                            dict(idxs=[], res="ok", out=[[], []], none=False, rep="list", argmod=False),
+                            bt([1, 0], "tuple"), bt([1, 0], "gen"), bt([1, 0], "npints"), bt([0, 1], "range"), bt([1, 1, 0], "nd64"),
+                            dict(idxs=[], res="raise:ValueError", out=[], none=False, rep="nd64", argmod=False)],
+                   src="hand-made", recipe="{}", argmod=False)
     diag = [[1, 0, 0], [0, 1, 0], [0, 0, 2]]
-    H["ric"] = dict(kind="ric", img=diag, res="ok", out=[[0, 0, 0], [0, 0, 0], [0, 0, 0]], src="hand-made")
+    hx = dict(src="hand-made", rep="u8", argmod=False, alias=False)
+    H["ric"] = dict(kind="ric", img=diag, res="ok", out=[[0, 0, 0], [0, 0, 0], [0, 0, 0]], **hx)
     pair = [[1, 3, 0], [0, 0, 1]]
-    H["ric2"] = dict(kind="ric", img=pair, res="ok", out=[[1, 3, 0], [0, 0, 0]], src="hand-made")
-    H["ext"] = dict(kind="ext", img=pair, res="ok", out=_ext(pair), src="hand-made")
+    H["ric2"] = dict(kind="ric", img=pair, res="ok", out=[[1, 3, 0], [0, 0, 0]], **hx)
+    H["ext"] = dict(kind="ext", img=pair, res="ok", out=_ext(pair), **hx)
+    H["ext1"] = dict(kind="ext", img=[[1, 0, 3]], res="ok", out=[[0] * 8, [0, 1, 1, 0, 0, 3, 3, 0], [0, 1, 1, 0, 0, 3, 3, 0], [0] * 8], **hx)  # 1x3: 4 rows of 8
     return _cp(H)
 
 
@@ -781,6 +1178,25 @@ def make_canaries():
     add("b100", "raises", lambda y: y.update(res="raise:NotAnImagePair", inp=[], tgt=[]))
     add("b000", "M:input_malformed", lambda y: y["maze"]["sol"].pop(1))
     add("b000", "M:input_malformed", lambda y: y["maze"].update(kind="TargetedLatticeMaze", sol=[]))
+    # audit 2: degenerate / column-shaped mazes, argument modification, option representation
+    add("d000", "input_image", px("inp", 1, 1, "S"))  # 1x1: start = end is one END mark
+    add("d000", "target_image", px("tgt", 1, 1, "#"))  # the one-cell solution missing from the target
+    add("d000", "input_size", lambda y: y.__setitem__("inp", _img(["#####", "#E# #", "#####"])))
+    add("d011", "target_image", lambda y: [y["tgt"][a_].__setitem__(b_, 3) for a_ in (3, 4) for b_ in (3, 4)])  # endpoint kept although endpoints_as_open (its whole 2x2 block)
+    add("d011", "extend_pixels", px("tgt", 3, 3, "E"))  # one pixel of the block only
+    add("d011", "extend_shape", lambda y: y.__setitem__("tgt", _img(["###", "# #", "###"])))
+    add("d110", "remove_isolated", lambda y: y.__setitem__("inp", _ext(_img(["###", "#E#", "###"]))))  # the lone mark of the smallest maze survives
+    add("t000", "input_size", lambda y: y.__setitem__("inp", tr(y["inp"])))  # rows and columns exchanged (7x3 <-> 3x7)
+    add("t000", "input_image", lambda y: (px("inp", 1, 1, "S")(y), px("inp", 3, 1, "E")(y)))  # a solution going up drawn downwards
+    add("t000", "target_image", px("tgt", 5, 1, " "))  # the isolated cell below shows in the target
+    add("t111", "remove_isolated", lambda y: [y["inp"][a_].__setitem__(b_, 1) for a_ in (11, 12) for b_ in (3, 4)])  # isolated cell at the far end survives
+    add("t111", "extend_shape", lambda y: y.__setitem__("inp", tr(y["inp"])))  # extended picture with the sides exchanged (8x16)
+    add("b000", "M:argument_modified", lambda y: y.update(argmod=True))
+    add("b001", "M:argument_modified", lambda y: (y.update(argmod=True), px("tgt", 3, 3, "E")(y)))
+    add("b001", "target_image", lambda y: (y.update(argmod=True), px("tgt", 3, 3, "E")(y)))  # ... and a wrong picture stays Layer P
+    add("b001", "M:option_representation", lambda y: (y.update(call="npbool"), px("tgt", 1, 1, "S")(y)))
+    add("b001", "target_image", lambda y: (y.update(call="dflt"), px("tgt", 1, 1, "S")(y)))  # default not honoured: Layer P
+    add("b001", "target_image", lambda y: (y.update(call="pos"), px("tgt", 1, 1, "S")(y)))
     # datasets / batches
     add("ds", "batch_order", lambda y: y["batches"][1].__setitem__("out", _cp(y["batches"][0]["out"])))  # visited in sorted order
     add("ds", "batch_order", lambda y: y["batches"][1]["out"].reverse())  # targets first
@@ -791,6 +1207,16 @@ def make_canaries():
     add("ds", "M:batch_layout", lambda y: y["batches"][2].__setitem__("out", tr(y["batches"][2]["out"])))  # [item, in/tgt]
     add("ds", "batch_raises", lambda y: y["batches"][0].update(res="raise:RuntimeError", out=[]))
     add("ds", "batch_raises", lambda y: y["batches"][3].update(res="raise:NotABatch", out=[]))
+    add("ds", "batch_order", lambda y: y["batches"][6]["out"][0].reverse())  # a tuple is accepted: what comes back must be in order
+    add("ds", "M:batch_index_representation", lambda y: y["batches"][6].update(res="raise:TypeError", out=[]))  # ... refusing it is Layer M
+    add("ds", "M:batch_index_representation", lambda y: y["batches"][7]["out"][0].reverse())  # generators / ranges: Layer M throughout
+    add("ds", "M:batch_index_representation", lambda y: y["batches"][9].update(res="raise:TypeError", out=[]))
+    add("ds", "batch_raises", lambda y: y["batches"][8].update(res="raise:TypeError", out=[]))  # a LIST of numpy ints is a list
+    add("ds", "batch_order", lambda y: y["batches"][8]["out"][1].reverse())
+    add("ds", "batch_order", lambda y: y["batches"][10].__setitem__("out", _cp(y["batches"][2]["out"][:1] + [y["batches"][2]["out"][1][::-1]])))
+    add("ds", "batch_order", lambda y: y["batches"][11].update(res="ok", out=_cp(y["batches"][0]["out"])))  # empty ndarray read as "all"
+    add("ds", "M:argument_modified", lambda y: y["batches"][1].update(argmod=True))
+    add("ds", "M:argument_modified", lambda y: y.update(argmod=True))
     add("ds", "construct_raises", lambda y: y.update(res="raise:KeyError", items=[], batches=[]))
     add("ds", "target_image", lambda y: y["items"][1]["tgt"][1].__setitem__(5, 1))
     add("ds", "target_image", lambda y: y.update(eao=True))  # option asked for but not applied
@@ -807,6 +1233,11 @@ def make_canaries():
     add("ext", "extend_pixels", lambda y: y["out"][1].__setitem__(1, 0))
     add("ext", "extend_shape", lambda y: y.__setitem__("out", tr(y["out"])))
     add("ext", "extend_shape", lambda y: y.__setitem__("out", [r[1:-1] for r in y["out"][1:-1]]))  # no frame
+    add("ext1", "extend_shape", lambda y: y.__setitem__("out", [[0] * 4] + [[0, 1, 1, 0]] * 2 + [[0, 0, 0, 0]] * 2 + [[0, 3, 3, 0]] * 2 + [[0] * 4]))  # 1x3 extended as 3x1
+    add("ext1", "extend_shape", lambda y: y.__setitem__("out", [[0] * 4] * 4))  # width taken from the height
+    add("ric2", "M:argument_modified", lambda y: y.update(argmod=True))
+    add("ric2", "M:result_aliases_argument", lambda y: y.update(alias=True))
+    add("ext", "M:result_aliases_argument", lambda y: y.update(alias=True, argmod=True))
     return cans
 
 
@@ -847,11 +1278,11 @@ class _Capped:
 def _case(x):
     """what a replay needs (images are re-observed)"""
     if x["kind"] == "item":
-        return {k: x[k] for k in ("kind", "maze", "ric", "ext", "eao", "res", "src", "via", "hist") if k in x}
+        return {k: x[k] for k in ("kind", "maze", "ric", "ext", "eao", "res", "src", "via", "hist", "call", "rep", "argmod") if k in x}
     if x["kind"] == "ds":
         return dict(kind="ds", ric=x["ric"], ext=x["ext"], eao=x["eao"], res=x["res"], src=x["src"], recipe=x["recipe"], n=len(x["mazes"]),
-                    item_res=[i["res"] for i in x["items"]], batches=[[b["idxs"], b["res"], b["none"]] for b in x["batches"]])
-    return {k: x[k] for k in ("kind", "img", "res", "out", "src")}
+                    item_res=[i["res"] for i in x["items"]], batches=[[b["idxs"], b["res"], b["none"], b["rep"], b["argmod"]] for b in x["batches"]], argmod=x["argmod"])
+    return {k: x[k] for k in ("kind", "img", "res", "out", "src", "rep", "argmod", "alias")}
 
 
 def _has_isolated(conn):
@@ -887,15 +1318,23 @@ def _judge(chk, cap, recs, label, what, **kw):
                 by["item/solution_of_two_cells"] = by.get("item/solution_of_two_cells", 0) + 1
             if x["ric"] and _has_isolated(x["maze"]["conn"]):
                 by["item/remove_isolated_on_maze_with_isolated_cell"] = by.get("item/remove_isolated_on_maze_with_isolated_cell", 0) + 1
+            for k2 in ("item/call=" + x["call"], "item/maze_rep=" + x["rep"]) + (("item/oblong_sides_differ_by_2_or_more",) if abs(x["maze"]["R"] - x["maze"]["C"]) >= 2 else ()) + (("item/one_row_or_one_column",) if min(x["maze"]["R"], x["maze"]["C"]) == 1 else ()):
+                by[k2] = by.get(k2, 0) + 1
         elif x["kind"] == "ds":
             chk.count([x["src"], x["recipe"], x["ric"], x["ext"], x["eao"]], _nontrivial(x))
             key = "ds/" + x["src"].split(":")[1]
             by["ds/items"] = by.get("ds/items", 0) + len(x["items"])
             by["ds/batches"] = by.get("ds/batches", 0) + len(x["batches"])
             by["ds/batches_refused_empty"] = by.get("ds/batches_refused_empty", 0) + sum(1 for b in x["batches"] if not b["idxs"] and b["res"] != "ok")
+            for b in x["batches"]:
+                by["ds/batch_idxs_as=" + b["rep"]] = by.get("ds/batch_idxs_as=" + b["rep"], 0) + 1
+            by["ds/items_of_one_cell_solutions"] = by.get("ds/items_of_one_cell_solutions", 0) + sum(1 for m in x["mazes"] if len(m["sol"]) == 1)
+            if x["mazes"] and x["mazes"][0]["R"] != x["mazes"][0]["C"]:
+                by["ds/oblong"] = by.get("ds/oblong", 0) + 1
         else:
             chk.count([x["kind"], x["img"]], _nontrivial(x))
             key = "helper/" + x["kind"]
+            by["helper/image_as=" + x["rep"]] = by.get("helper/image_as=" + x["rep"], 0) + 1
         by[key] = by.get(key, 0) + 1
 
 
@@ -910,6 +1349,10 @@ def main(chk: lib.Check) -> int:
         "default options, from_config_augmented for the five generators) with every item and index lists in order, reversed, repeated, single, random, "
         "empty and None; the two post-processing helpers on every wall/open image up to 3x3 (+3x4, 4x3) and random coloured images up to 9x9. "
         "histories on one maze / dataset object and across shapes in one process (results overwritten in between); grids 33, 65, 2x130, 130x2 and a 260-item dataset. "
+        "audit 2: every maze object is built in one of 10 representations / routes (solution as list, tuple, int8, int32, strided view; Fortran-ordered connection_list; "
+        "from_lattice_maze, from_targeted_lattice_maze, constructor with generation_meta) and the options are handed over as keywords, positionally, by omission of the "
+        "documented defaults, as numpy.bool_; hand-built oblong / 1xN / Nx1 / 1x1 mazes with one- and two-cell solutions; datasets of those along every construction route; "
+        "stale config fields; helper images as uint8 / int64 / int32 / Fortran / non-contiguous view / read-only; arguments snapshotted before and compared after every call. "
         "non-trivial = solution of >= 2 cells or remove_isolated_cells on (items), >= 2 mazes (datasets), image with an open pixel (helpers)"
     )
     chk.notes["records_by_kind"] = {}
@@ -924,6 +1367,8 @@ def main(chk: lib.Check) -> int:
         ("pad_first", "ExtendShape", "frame added before the pixels are doubled"),
         ("post_order", "IsolatedCellsWalled", "isolated cells removed after extension (never isolated any more)"),
         ("batch_sorted", "BatchOrder", "batch visits the indices in sorted order"),
+        ("ext_square", "ExtendShape", "width of the framed picture computed from its height (only an oblong maze shows it)"),
+        ("ric_open_only", "IsolatedCellsWalled", "only OPEN-coloured pixels are candidates: the lone END mark of a one-cell solution on an isolated cell survives"),
     ]:
         r = lib.tlc_expect_violation("Raster", f"Raster_{v}.cfg", inv, tag=v, workers=2)
         chk.add_model(f"Raster/{v}(expected violation)", r, f"broken mechanism rejected by {inv}: {what}")
@@ -935,7 +1380,7 @@ def main(chk: lib.Check) -> int:
     cap = _Capped(chk)
     check_hand_made(chk)
     # ---- (C1) exhaustive tiny scope on the real code
-    shapes = [(2, 2), (1, 2), (2, 1), (1, 3), (3, 1)] + ([(2, 3), (3, 2)] if thorough else [])
+    shapes = [(1, 1), (2, 2), (1, 2), (2, 1), (1, 3), (3, 1)] + ([(2, 3), (3, 2), (1, 4), (4, 1)] if thorough else [])
     jobs = []
     for rr, cc in shapes:
         n = mz.n_graphs(rr, cc)
@@ -974,7 +1419,12 @@ def main(chk: lib.Check) -> int:
     small = [x for x in recs if x["res"] == "ok" and len(x["mazes"]) == 2 and x["mazes"][0]["R"] <= 3]
     if small:
         chk.sample({k: v for k, v in small[0].items() if k not in ("items", "batches")} | {"batch_idxs": [b["idxs"] for b in small[0]["batches"]]})
-    _judge(chk, cap, recs, "ds", "RasterizedMazeDataset[i] judged per image; get_batch(idxs) compared item by item with dataset[idxs[k]]")
+    plan = ds2_jobs(thorough)
+    recs += [x for sub in lib.pmap(observe_dataset2, [(chk.seed, j, job) for j, job in enumerate(plan)], chunksize=2) for x in sub]
+    chk.notes["datasets_routes_x_shortest_cases_x_stale_state"] = len(plan)
+    _judge(chk, cap, recs, "ds", "RasterizedMazeDataset[i] judged per image; get_batch(idxs) compared item by item with dataset[idxs[k]]; construction routes from_base_MazeDataset "
+           "(full / partial / empty / no added_params, base already rasterized with the opposite options, base filtered / metadata collected), direct constructor, "
+           "from_config_augmented; configs whose n_mazes / grid_n disagree with the mazes; index lists as list / tuple / ndarray / numpy ints / range / generator")
 
     # ---- (C5) histories: the same objects / functions / datasets used repeatedly in one process
     nh = 240 if thorough else 48
@@ -1016,9 +1466,7 @@ def main(chk: lib.Check) -> int:
 
 
 def _replay_ds(recipe, opts, lists, tab, tmp, src):
-    if recipe.get("how") == "base":
-        return _observe_ds(lambda: _silenced(lambda: _build_from_base(recipe["mazes"], None if recipe.get("default") else opts)), opts, lists, src, tab, recipe)
-    return _observe_ds(lambda: _silenced(lambda: _build_from_config(recipe, opts, tmp)), opts, lists, src, tab, recipe)
+    return _observe_recipe(recipe, opts, lists, src, tab, tmp)
 
 
 def replay(path: str) -> int:
@@ -1033,11 +1481,11 @@ def replay(path: str) -> int:
         recs = _history([(np.array(c, dtype=bool), [tuple(x) for x in p]) for c, p in h["mazes"]], h["steps"], "replay", tab)
     elif kind == "item":
         pm = case["maze"]
-        recs = observe_maze(np.array(pm["conn"], dtype=bool), pm["sol"], "replay", tab, opts=[(case["ric"], case["ext"], case["eao"])])
+        recs = observe_maze(np.array(pm["conn"], dtype=bool), pm["sol"], "replay", tab, opts=[(case["ric"], case["ext"], case["eao"])], rep=case.get("rep", "arr"), calls=[case.get("call", "kw")])
     elif kind == "ds":
         recipe = json.loads(case["recipe"])
         opts = (case["ric"], case["ext"], case["eao"])
-        bl = [("all" if b[2] else b[0]) for b in case["batches"]]
+        bl = [("all" if b[2] else b[0] if len(b) < 4 or b[3] == "list" else dict(rep=b[3], idxs=b[0])) for b in case["batches"]]
         if case.get("src", "").endswith("pass1"):
             bl = bl[::-1]
         tmp = tempfile.mkdtemp(prefix="c17_", dir=str(lib.WORK))
@@ -1048,7 +1496,7 @@ def replay(path: str) -> int:
         finally:
             shutil.rmtree(tmp, ignore_errors=True)
     else:
-        recs = [_helper(kind, case["img"], tab, "replay")]
+        recs = [_helper(kind, case["img"], tab, "replay", case.get("rep", "u8"))]
     for i, x in enumerate(recs):
         x["id"] = i
     out = lib.oracle("Trace_Raster", recs, tag="rp")
